@@ -101,6 +101,10 @@ def build_assembly(cfg, values=None):
 def build(cfg, values=None):
     if cfg['variant'] == 'assembly':
         return build_assembly(cfg, values)
+    if cfg['variant'] == 'kT0-analytic':
+        # tangent at the undeformed state = the ANALYTICAL linear stiffness (exact Gauss rule; harness shared with C14 relation d)
+        from . import c14
+        return c14.build(dict(cfg, rel='d', which='k0', kT=True), values)
     model, m, n, variant = cfg['model'], cfg['m'], cfg['n'], cfg['variant']
     nx, ny = cfg['nx'], cfg['ny']
     ctx = PanelCtx(values=values, seed=cfg.get('seed', 0))
@@ -250,6 +254,9 @@ def configs(tier, seed):
             out.append({'model': model, 'm': 4, 'n': 4, 'nx': 1, 'ny': 1, 'variant': 'fint', 'group': 'fint-gradient:%s' % model, 'timeout_ms': 600000})
             out.append({'model': model, 'm': 4, 'n': 3, 'nx': 2, 'ny': 2, 'variant': 'kT', 'group': 'kT-jacobian-2x2:%s' % model, 'timeout_ms': 900000})
             out.append({'model': model, 'm': 6, 'n': 1, 'nx': 3, 'ny': 1, 'variant': 'fint', 'state': 'bending', 'group': 'fint-gradient-3x1:%s' % model, 'timeout_ms': 600000})
+    for model in ('plate', 'cpanel'):
+        out.append({'variant': 'kT0-analytic', 'model': model, 'm': 2, 'n': 1, 'nx': 8, 'ny': 8, 'nq': 8, 'group': 'kT(0)=analytical-k0:%s' % model})
+        out.append({'variant': 'kT0-analytic', 'model': model, 'm': 1, 'n': 2, 'nx': 8, 'ny': 8, 'nq': 8, 'ortho': True, 'group': 'kT(0)=analytical-k0:%s:force_orthotropic_laminate' % model})
     # assemblies of non-linear panels joined by penalty connections
     out.append({'variant': 'assembly', 'panels': [('plate', 2, 1), ('plate', 1, 2)], 'model': 'assembly', 'm': 2, 'n': 1, 'nx': 1, 'ny': 1,
                 'group': 'assembly-tangent=jacobian', 'timeout_ms': 300000})
